@@ -178,6 +178,18 @@ CHECKS = {
             "cycle must be byte-identical. Sampled over documents.",
             "W is lxml tostring of to_xml_tree with the document's fixed header date.",
             "DESIGN.md 3/C15"),
+    "C16": ("exploration",
+            "Hypothesis-generated (rendering x load-history) cases, as generated histories and as a rule-based state "
+            "machine, against an expectation computed from the model without the library (metamorphic: all renderings "
+            "and histories must give the same dump)",
+            "Each model is rendered by the harness's own XML writer in three namespace conventions with arbitrary "
+            "prefixes, optional xmlns:xsi, comments/whitespace between the children of every element-only element, "
+            "defaults written or omitted, and loaded after 0..4 earlier loads of other renderings, malformed inputs, "
+            "wrong-prefix loads and documents failing inside the loader; the structural dump must equal the model's "
+            "dump every time. Sampled.",
+            "The library's process-wide namespace state is reset to its fresh-process value at the start of every case "
+            "so that a case is a pure function of its own history.",
+            "DESIGN.md 3/C16"),
 }
 
 PENDING_REASON = "check not built yet in this round (planned, see DESIGN.md section 3); nothing is claimed for it"
